@@ -447,6 +447,10 @@ def correspond(model_ok, res):
             dist["histories"]["count"] += 1
             dist["histories"]["length"][len(h)] = dist["histories"]["length"].get(len(h), 0) + 1
             for k, (tree, d) in enumerate(h):
+                if k == 1 and hi % 2 == 0:
+                    # a call that cannot complete (tree deeper than the recursion limit) in the middle of the history
+                    dist["histories"]["aborted"] = dist["histories"].get("aborted", 0) + \
+                        (gentree.aborted_call(reused, T) != "completed")
                 before = lib.g_item(tree)
                 payload = {"history": descs, "index": k, "resolve_to": tgname, "add_head": ah}
                 try:
